@@ -16,27 +16,32 @@ Fixpoint shape (name : string) (l : list (string * string)) : string :=
   | (n, s) :: t => if String.eqb n name then s else shape name t
   end.
 
-(** the source's serde attributes: restricted integers go through the checked TryFrom<u16>,
-    RawShortMessage through the checked TryFrom<(u8,U7,U7)>, the two multi-field messages through
-    a validating try_from, ShortMessageType through serde_repr *)
+(** the source's serde attributes: none of the types with an invariant of its own -- the
+    restricted integers, RawShortMessage, the two multi-field messages -- obtains Deserialize by
+    a plain derive (which stores the fields without looking at them: the defects D4-D6), and
+    ShortMessageType does not either (it goes through serde_repr's checked conversion).  The
+    other shapes the translator reports ("try_from:<T>", a hand-written impl, one it does not
+    recognise) are modelled as validating; that the implementation validates is then shown per
+    input by the correspondence check. *)
+Definition not_plain_derive (name : string) : bool :=
+  negb (String.eqb (shape name serde_shapes) "derive").
+
 Theorem C19_source_uses_validating_shapes :
-  shape "newtype" serde_shapes = "try_from:u16" /\
-  shape "RawShortMessage" serde_shapes = "try_from:(u8,U7,U7)" /\
-  prefix "try_from:" (shape "ControlChange14BitMessage" serde_shapes) = true /\
-  prefix "try_from:" (shape "ParameterNumberMessage" serde_shapes) = true /\
-  shape "ShortMessageType" serde_shapes = "repr".
-Proof. repeat split; reflexivity. Qed.
+  forallb not_plain_derive
+    ["newtype"; "RawShortMessage"; "ControlChange14BitMessage"; "ParameterNumberMessage";
+     "ShortMessageType"] = true.
+Proof. reflexivity. Qed.
 
 (** restricted integers in range (any JSON input) *)
 Theorem C19_integers_in_range : forall rmax max v n,
   de_nt (shape "newtype" serde_shapes) rmax max v = Some n -> (n <= max)%N.
-Proof. exact de_nt_valid. Qed.
+Proof. intros rmax max v n. apply de_nt_valid. reflexivity. Qed.
 
 (** short messages with a valid status byte *)
 Theorem C19_raw_valid : forall de_u7,
   (forall v n, de_u7 v = Some n -> (n < 128)%N) ->
   forall v b, de_raw de_u7 (shape "RawShortMessage" serde_shapes) v = Some b -> valid3 b = true.
-Proof. exact de_raw_valid. Qed.
+Proof. intros de_u7 H v b. apply (de_raw_valid de_u7 H). reflexivity. Qed.
 
 (** 14-bit Control Change messages with an MSB controller number of 0-31 *)
 Theorem C19_cc14_valid : forall de_u14 de_channel de_cn,
@@ -47,7 +52,7 @@ Theorem C19_cc14_valid : forall de_u14 de_channel de_cn,
   (cc_channel m < 16 /\ cc_msb_cn m < 32 /\ cc_value m < 16384)%N.
 Proof.
   intros de_u14 de_channel de_cn H1 H2 v m.
-  apply (de_cc14_valid de_u14 de_channel de_cn H1 H2); reflexivity.
+  apply (de_cc14_valid de_u14 de_channel de_cn H1 H2). reflexivity.
 Qed.
 
 (** (N)RPN messages whose resolution, value and data type are consistent *)
@@ -59,7 +64,7 @@ Theorem C19_pn_valid : forall de_u14 de_channel,
   pnmsg_wf m = true.
 Proof.
   intros de_u14 de_channel H1 H2 v m.
-  apply (de_pn_valid de_u14 de_channel H1 H2); reflexivity.
+  apply (de_pn_valid de_u14 de_channel H1 H2). reflexivity.
 Qed.
 
 (** structured messages and quarter frames: every field is a restricted integer *)
@@ -78,13 +83,13 @@ Proof. exact de_structured_valid. Qed.
 Theorem C19_integer_roundtrip : forall rmax max n,
   (n <= max)%N -> (max <= 65535)%N ->
   de_nt (shape "newtype" serde_shapes) rmax max (JInt (Z.of_N n)) = Some n.
-Proof. exact de_nt_roundtrip. Qed.
+Proof. intros rmax max n. apply de_nt_roundtrip. reflexivity. Qed.
 
 Theorem C19_raw_roundtrip : forall de_u7,
   (forall n, (n < 128)%N -> de_u7 (jn n) = Some n) ->
   forall s a c, valid3 (s, a, c) = true ->
   de_raw de_u7 (shape "RawShortMessage" serde_shapes) (ser_raw (s, a, c)) = Some (s, a, c).
-Proof. exact raw_roundtrip. Qed.
+Proof. intros de_u7 H s a c. apply (raw_roundtrip de_u7 H). reflexivity. Qed.
 
 Theorem C19_cc14_roundtrip : forall de_u14 de_channel de_cn,
   (forall n, (n < 16384)%N -> de_u14 (jn n) = Some n) ->
@@ -95,7 +100,7 @@ Theorem C19_cc14_roundtrip : forall de_u14 de_channel de_cn,
           (ser_cc14 (mkCC14 ch n v)) = Some (mkCC14 ch n v).
 Proof.
   intros de_u14 de_channel de_cn H1 H2 H3 ch n v.
-  apply (cc14_roundtrip de_u14 de_channel de_cn H1 H2 H3); reflexivity.
+  apply (cc14_roundtrip de_u14 de_channel de_cn H1 H2 H3). reflexivity.
 Qed.
 
 Theorem C19_pn_roundtrip : forall de_u14 de_channel,
@@ -105,7 +110,7 @@ Theorem C19_pn_roundtrip : forall de_u14 de_channel,
   de_pn de_u14 de_channel (shape "ParameterNumberMessage" serde_shapes) (ser_pn m) = Some m.
 Proof.
   intros de_u14 de_channel H1 H2 m.
-  apply (pn_roundtrip de_u14 de_channel H1 H2); reflexivity.
+  apply (pn_roundtrip de_u14 de_channel H1 H2). reflexivity.
 Qed.
 
 Print Assumptions C19_source_uses_validating_shapes.
